@@ -39,10 +39,7 @@ func TestMain(m *testing.M) {
 }
 
 // HarOpt is a HAR body / post-data logging option.
-type HarOpt struct {
-	Mode  string   `json:"mode"` // all | none | optin | optout
-	Types []string `json:"types,omitempty"`
-}
+type HarOpt = msggen.HarOpt
 
 // Case is one message, one logger configuration.
 type Case struct {
@@ -130,30 +127,6 @@ func (w *countWriter) Write(p []byte) (int, error) {
 	return len(p), nil
 }
 
-func harOption(post bool, o HarOpt) har.Option {
-	switch o.Mode {
-	case "none":
-		if post {
-			return har.PostDataLogging(false)
-		}
-		return har.BodyLogging(false)
-	case "optin":
-		if post {
-			return har.PostDataLoggingForContentTypes(o.Types...)
-		}
-		return har.BodyLoggingForContentTypes(o.Types...)
-	case "optout":
-		if post {
-			return har.SkipPostDataLoggingForContentTypes(o.Types...)
-		}
-		return har.SkipBodyLoggingForContentTypes(o.Types...)
-	}
-	if post {
-		return har.PostDataLogging(true)
-	}
-	return har.BodyLogging(true)
-}
-
 type applied struct {
 	name     string
 	err      error
@@ -162,7 +135,7 @@ type applied struct {
 
 func applyHAR(c Case, t *twin) applied {
 	l := har.NewLogger()
-	l.SetOption(harOption(true, c.Post), harOption(false, c.Body))
+	l.SetOption(c.Post.Option(true), c.Body.Option(false))
 	var err error
 	if t.res == nil {
 		err = l.ModifyRequest(t.req)
@@ -210,10 +183,10 @@ func forwardShape(c Case, m *msggen.Message) string {
 		side = "response"
 	}
 	switch {
-	case c.Unknown:
-		return side + "-unknown-length"
 	case !m.BodyOnWire || (len(m.Entity) == 0 && m.Framing != "chunked" && m.Framing != "close"):
 		return side + "-without-body"
+	case c.Unknown:
+		return side + "-unknown-length"
 	case m.TrailerPresent:
 		return side + "-chunked-with-trailers"
 	}
@@ -416,6 +389,32 @@ func run(c Case) (v kit.Verdict) {
 	}
 
 	// forwarded bytes: subject versus unlogged control
+	//
+	// One case must not be decided by writing: a bodyless GET/HEAD/DELETE/
+	// OPTIONS whose http.NoBody was replaced by another (empty) reader. For
+	// those methods net/http probes the body for 200 ms before it chooses the
+	// framing, so the forwarded bytes depend on the scheduler (seen under
+	// load: "Transfer-Encoding: chunked" on a GET). The replacement itself is
+	// the defect; POST/PUT/PATCH show it in the bytes on every run.
+	if sub.res == nil && ctl.req.Body == http.NoBody && sub.req.Body != http.NoBody && sub.req.Body != nil && probed(sub.req.Method) {
+		n := len(v)
+		if c.Logger == "stack" {
+			for _, name := range []string{"har", "marbl", "text"} {
+				c1 := c
+				c1.Logger, c1.Order = name, nil
+				for _, f := range run(c1) {
+					if strings.HasPrefix(f.Sig, "C15/forward/") {
+						v = append(v, f)
+					}
+				}
+			}
+		}
+		if len(v) == n {
+			v.Addf("C15/forward/"+c.Logger+"/request-without-body/reframed-as-chunked",
+				"the logger replaced http.NoBody of a bodyless %s by %T: net/http now has to probe the body and forwards the request with 'Transfer-Encoding: chunked' whenever the probe takes longer than 200 ms (always for POST/PUT/PATCH)", sub.req.Method, sub.req.Body)
+		}
+		return append(v, skipCheck(c, logs)...)
+	}
 	want, werr := ctl.write(c.Proxy)
 	got, gerr := sub.write(c.Proxy)
 	shape := forwardShape(c, m)
@@ -461,7 +460,23 @@ func run(c Case) (v kit.Verdict) {
 		}
 	}
 
-	// skip-logging: recorded by none of them
+	v = append(v, skipCheck(c, logs)...)
+	return v
+}
+
+// probed lists the methods for which net/http decides the framing of a
+// request with a body of unknown length by a timed read (transfer.go,
+// requestMethodUsuallyLacksBody).
+func probed(method string) bool {
+	switch method {
+	case "GET", "HEAD", "DELETE", "OPTIONS", "PROPFIND", "SEARCH":
+		return true
+	}
+	return false
+}
+
+// skipCheck: an exchange marked skip-logging is recorded by none of the loggers.
+func skipCheck(c Case, logs []applied) (v kit.Verdict) {
 	for _, a := range logs {
 		if c.Skip && a.recorded() {
 			v.Addf("C15/skip-logging/"+a.name+"/recorded", "the exchange is marked skip-logging, yet the %s logger recorded it", a.name)
@@ -544,6 +559,21 @@ func snapshot(c Case, m *msggen.Message, sub *twin) (v kit.Verdict) {
 		startExp = fmt.Sprintf("%s %d %d %s", m.Proto, m.Status, m.Status, m.Reason)
 		wantCL, wantTE = sub.res.ContentLength, sub.res.TransferEncoding
 	}
+	if sub.res == nil {
+		// net/http takes the host of an absolute request target from the target:
+		// the Host line itself has to be looked for in the bytes
+		hostLine := false
+		if i := bytes.Index(raw, []byte("\r\n\r\n")); i >= 0 {
+			for _, l := range strings.Split(string(raw[:i]), "\r\n")[1:] {
+				if strings.EqualFold(l, "Host: "+m.Host) {
+					hostLine = true
+				}
+			}
+		}
+		if !hostLine {
+			v.Addf("C15/snapshot/"+shape+"/host-header-missing", "the snapshot has no 'Host: %s' line: %s", m.Host, head(raw))
+		}
+	}
 	if startGot != startExp {
 		v.Addf("C15/snapshot/"+shape+"/start-line-differs", "snapshot start line %q, message %q", startGot, startExp)
 	}
@@ -574,18 +604,9 @@ func snapshot(c Case, m *msggen.Message, sub *twin) (v kit.Verdict) {
 
 // ---------------------------------------------------------------- generation
 
-var ctPrefixes = []string{"text/", "application/json", "image/", "application/x-www-form", "multipart/", "TEXT/PLAIN", "application/octet"}
+var ctPrefixes = msggen.CTPrefixes
 
-func drawHarOpt(t *rapid.T, label string) HarOpt {
-	o := HarOpt{Mode: rapid.SampledFrom([]string{"all", "all", "none", "optin", "optout"}).Draw(t, label+"_mode")}
-	if o.Mode == "optin" || o.Mode == "optout" {
-		n := rapid.IntRange(1, 3).Draw(t, label+"_ntypes")
-		for i := 0; i < n; i++ {
-			o.Types = append(o.Types, rapid.SampledFrom(ctPrefixes).Draw(t, label+"_type"))
-		}
-	}
-	return o
-}
+func drawHarOpt(t *rapid.T, label string) HarOpt { return msggen.DrawHarOpt(t, label) }
 
 func maxBody() int {
 	if kit.Thorough() {
@@ -622,12 +643,17 @@ func gen(t *rapid.T) Case {
 	return c
 }
 
-func nontrivial(c Case) bool {
-	s := c.Msg
+func bodySize(s msggen.Spec) int {
 	size := s.Body.Size
 	for _, p := range s.Body.Params {
 		size += len(p.Value.Lit) + p.Value.N
 	}
+	return size
+}
+
+func nontrivial(c Case) bool {
+	s := c.Msg
+	size := bodySize(s)
 	return size >= 4097 || s.Framing == "chunked" || s.Framing == "close" || c.Unknown || len(s.Trailers) > 0 || s.Encoding != ""
 }
 
@@ -657,13 +683,13 @@ func classes(c Case) []string {
 	if c.Unknown {
 		cl = append(cl, "unknown-length")
 	}
-	if s.Body.Size >= 4097 {
+	if bodySize(s) >= 4097 {
 		cl = append(cl, "body>=4097")
 	}
-	if s.Body.Size >= 65537 {
+	if bodySize(s) >= 65537 {
 		cl = append(cl, "body>=65537")
 	}
-	if s.Body.Size >= 1<<20 {
+	if bodySize(s) >= 1<<20 {
 		cl = append(cl, "body>=1MiB")
 	}
 	if s.Body.Kind != "" {
@@ -773,7 +799,7 @@ func TestForward(t *testing.T) {
 	if kit.Race() {
 		t.Skip("sequential, single goroutine per case")
 	}
-	propForward.Check(t, kit.N(1500, 8000))
+	propForward.Check(t, kit.N(5000, 30000))
 }
 
 func TestReplay(t *testing.T) { kit.Replay(t, propForward, propMatrix) }
